@@ -227,6 +227,163 @@ func c05ConsultsExpiry(p *pkgInfo, fd *ast.FuncDecl, entry string) bool {
 	return found
 }
 
+// c05CookieChoice: which cookie named auth_cookie does fd use when the request carries several?
+func c05CookieChoice(p *pkgInfo, fd *ast.FuncDecl) string {
+	if fd == nil {
+		return "unknown"
+	}
+	res := "unknown"
+	ast.Inspect(fd.Body, func(n ast.Node) bool {
+		switch x := n.(type) {
+		case *ast.CallExpr:
+			if sel, ok := x.Fun.(*ast.SelectorExpr); ok && sel.Sel.Name == "Cookie" && len(x.Args) == 1 && p.str(x.Args[0]) == "authCookieName" {
+				res = "first"
+				return false
+			}
+		case *ast.RangeStmt:
+			if p.str(x.X) != "r.Cookies()" || x.Value == nil {
+				return true
+			}
+			v := p.str(x.Value)
+			assigns, brk, filtered := false, false, false
+			ast.Inspect(x.Body, func(m ast.Node) bool {
+				switch y := m.(type) {
+				case *ast.BranchStmt:
+					if y.Tok == token.BREAK {
+						brk = true
+					}
+				case *ast.IfStmt:
+					if p.str(y.Cond) == v+".Name != authCookieName" && len(y.Body.List) == 1 {
+						if bs, ok := y.Body.List[0].(*ast.BranchStmt); ok && bs.Tok == token.CONTINUE {
+							filtered = true
+						}
+					}
+				case *ast.AssignStmt:
+					if len(y.Lhs) == 1 && p.str(y.Lhs[0]) == "authCookie" && p.str(y.Rhs[0]) == v {
+						assigns = true
+					}
+				}
+				return true
+			})
+			if assigns && filtered && res != "first" {
+				if brk {
+					res = "first"
+				} else {
+					res = "last"
+				}
+			}
+		}
+		return true
+	})
+	return res
+}
+
+func c05UpgradePos(fd *ast.FuncDecl) token.Pos {
+	var pos token.Pos
+	ast.Inspect(fd.Body, func(n ast.Node) bool {
+		if ce, ok := n.(*ast.CallExpr); ok {
+			if sel, ok := ce.Fun.(*ast.SelectorExpr); ok && sel.Sel.Name == "updateAuthCookieAuthlevel" && pos == 0 {
+				pos = ce.Pos()
+			}
+		}
+		return true
+	})
+	return pos
+}
+
+func c05BodyReturns(b *ast.BlockStmt) bool {
+	for _, st := range b.List {
+		if _, ok := st.(*ast.ReturnStmt); ok {
+			return true
+		}
+	}
+	return false
+}
+
+// BootstrapOtpAuthHandler: `profile.BootstrapOTP = bootstrapOTPData{}` then
+// `if err := state.SaveUserProfile(...); err != nil { ...; return }`, both before the upgrade.
+func c05BootstrapConsumesFirst(p *pkgInfo) bool {
+	fd := p.funcs["BootstrapOtpAuthHandler"]
+	if fd == nil {
+		return false
+	}
+	up := c05UpgradePos(fd)
+	var cleared, saved token.Pos
+	ast.Inspect(fd.Body, func(n ast.Node) bool {
+		switch x := n.(type) {
+		case *ast.AssignStmt:
+			if len(x.Lhs) == 1 && p.str(x.Lhs[0]) == "profile.BootstrapOTP" && p.str(x.Rhs[0]) == "bootstrapOTPData{}" {
+				cleared = x.Pos()
+			}
+		case *ast.IfStmt:
+			if x.Init != nil && strings.Contains(p.str(x.Init), "state.SaveUserProfile(authData.Username, profile)") &&
+				p.str(x.Cond) == "err != nil" && c05BodyReturns(x.Body) {
+				saved = x.Pos()
+			}
+		}
+		return true
+	})
+	return up != 0 && cleared != 0 && saved != 0 && cleared < saved && saved < up
+}
+
+// internalTOTPAuthHandler validates (error and !valid leave the handler) before the upgrade, and
+// validateUserTOTP reports success only after SaveUserProfile succeeded.
+func c05TotpConsumesFirst(p *pkgInfo) bool {
+	fd := p.funcs["internalTOTPAuthHandler"]
+	vd := p.funcs["validateUserTOTP"]
+	if fd == nil || vd == nil {
+		return false
+	}
+	up := c05UpgradePos(fd)
+	var call token.Pos
+	errLeaves, invalidLeaves := false, false
+	ast.Inspect(fd.Body, func(n ast.Node) bool {
+		switch x := n.(type) {
+		case *ast.CallExpr:
+			if sel, ok := x.Fun.(*ast.SelectorExpr); ok && sel.Sel.Name == "validateUserTOTP" {
+				call = x.Pos()
+			}
+		case *ast.IfStmt:
+			if x.Pos() < up && c05BodyReturns(x.Body) {
+				if p.str(x.Cond) == "err != nil" {
+					errLeaves = true
+				}
+				if p.str(x.Cond) == "!valid" {
+					invalidLeaves = true
+				}
+			}
+		}
+		return true
+	})
+	if !(call != 0 && call < up && errLeaves && invalidLeaves) {
+		return false
+	}
+	// in validateUserTOTP: save, then `if err != nil { ...; return false, err }`, then `return true, nil`
+	var save, guard, okRet token.Pos
+	ast.Inspect(vd.Body, func(n ast.Node) bool {
+		switch x := n.(type) {
+		case *ast.AssignStmt:
+			if len(x.Rhs) == 1 && strings.HasPrefix(p.str(x.Rhs[0]), "state.SaveUserProfile(username, profile)") {
+				save = x.Pos()
+			}
+		case *ast.IfStmt:
+			if save != 0 && guard == 0 && x.Pos() > save && p.str(x.Cond) == "err != nil" {
+				for _, st := range x.Body.List {
+					if rs, ok := st.(*ast.ReturnStmt); ok && len(rs.Results) == 2 && p.str(rs.Results[0]) == "false" {
+						guard = x.Pos()
+					}
+				}
+			}
+		case *ast.ReturnStmt:
+			if len(x.Results) == 2 && p.str(x.Results[0]) == "true" {
+				okRet = x.Pos()
+			}
+		}
+		return true
+	})
+	return save != 0 && guard != 0 && okRet != 0 && save < guard && guard < okRet
+}
+
 func genC05(e *emitter) {
 	p := e.pkg("cmd/keymasterd")
 	var sites []c05Site
@@ -362,6 +519,25 @@ func genC05(e *emitter) {
 		}
 	}
 
+	// which of several auth cookies is used
+	type choice struct {
+		Func   string `json:"func"`
+		Choice string `json:"choice"`
+	}
+	var choices []choice
+	for _, fn := range []string{"checkAuth", "updateAuthCookieAuthlevel", "logoutHandler"} {
+		choices = append(choices, choice{fn, c05CookieChoice(p, p.funcs[fn])})
+	}
+	// one-time value consumed (durably) before the upgrade
+	type cons struct {
+		Func string `json:"func"`
+		Ok   bool   `json:"consumed_before_upgrade"`
+	}
+	conss := []cons{
+		{"BootstrapOtpAuthHandler", c05BootstrapConsumesFirst(p)},
+		{"internalTOTPAuthHandler", c05TotpConsumesFirst(p)},
+	}
+
 	var b strings.Builder
 	b.WriteString("import KM.Model.SessionSites\nnamespace KM.Gen\nopen KM.SessionSites\n\n")
 	b.WriteString("/-- every `updateAuthCookieAuthlevel(w, r, X)` call of cmd/keymasterd: what X is built from -/\n")
@@ -401,8 +577,25 @@ func genC05(e *emitter) {
 	}
 	b.WriteString("]\n\n")
 	fmt.Fprintf(&b, "/-- what validateUserTOTP stores in LastSuccessfullTOTPCounter -/\ndef totpStored : TotpStored := TotpStored.%s\n", stored)
+	b.WriteString("\n/-- which of several cookies named auth_cookie each function uses -/\ndef authCookieChoice : List (AuthFn × CookieChoice) := [")
+	for i, c := range choices {
+		if i > 0 {
+			b.WriteString(", ")
+		}
+		fmt.Fprintf(&b, "(AuthFn.%s, CookieChoice.%s)", c.Func, c.Choice)
+	}
+	b.WriteString("]\n\n/-- (handler, is the stored one-time value cleared/advanced and SAVED, with the error path leaving the handler, before the upgrade) -/\ndef consumedBeforeUpgrade : List (HandlerId × Bool) := [")
+	for i, c := range conss {
+		if i > 0 {
+			b.WriteString(", ")
+		}
+		fmt.Fprintf(&b, "(%s, %s)", c05Handler(c.Func), leanBool(c.Ok))
+	}
+	b.WriteString("]\n")
 	b.WriteString("\nend KM.Gen\n")
 	e.lean("C05.lean", b.String())
+	e.facts["c05_auth_cookie_choice"] = choices
+	e.facts["c05_consumed_before_upgrade"] = conss
 	e.facts["c05_upgrade_sites"] = sites
 	e.facts["c05_poll_binding"] = map[string]string{"vip": vipBinding, "okta": oktaBinding}
 	e.facts["c05_expiry_sites"] = exps
